@@ -106,29 +106,47 @@ def build(tier, repo):
     r3 = chk.rule("C12-R3", "vmap/mmap complete: every original variable, linear inequality, PWL inequality (all pieces) and equality",
                   "values and multipliers are set for every variable and constraint of the original problem")
     want = [("vmap", "variables"), ("mmap", "lin_ineqs"), ("mmap", "pwl_ineqs"), ("mmap", "equalities")]
+
+    def loop_over(s, coll):
+        """(key variable text, value variable or None) if `s` iterates over coll / coll.keys() / coll.items()"""
+        it = s.iter
+        if isinstance(it, ast.Call) and isinstance(it.func, ast.Name) and it.func.id == "iter" and len(it.args) == 1:
+            it = it.args[0]
+        if pf.norm_expr(it) == coll or (isinstance(it, ast.Call) and isinstance(it.func, ast.Attribute) and it.func.attr == "keys"
+                                        and pf.norm_expr(it.func.value) == coll):
+            return pf.norm_expr(s.target), None
+        if isinstance(it, ast.Call) and isinstance(it.func, ast.Attribute) and it.func.attr == "items" and pf.norm_expr(it.func.value) == coll \
+                and isinstance(s.target, ast.Tuple) and len(s.target.elts) == 2:
+            return pf.norm_expr(s.target.elts[0]), pf.norm_expr(s.target.elts[1])
+        return None
     for mp_, coll in want:
         found = None
         for s in imf.body:
-            if isinstance(s, ast.For) and pf.norm_expr(s.iter) == coll and any(
-                    isinstance(a, ast.Assign) and isinstance(a.targets[0], ast.Subscript) and pf.norm_expr(a.targets[0].value) == mp_
-                    and pf.norm_expr(a.targets[0].slice) == pf.norm_expr(s.target) for a in ast.walk(s)):
+            lo = loop_over(s, coll) if isinstance(s, ast.For) else None
+            if lo and any(isinstance(a, ast.Assign) and isinstance(a.targets[0], ast.Subscript) and pf.norm_expr(a.targets[0].value) == mp_
+                          and pf.norm_expr(a.targets[0].slice) == lo[0] for a in ast.walk(s)):
                 found = s
         key = "_inmatrixform:%s[x] for x in %s" % (mp_, coll)
         if found is not None:
             r3.ok(key, m.where(found, imf))
         else:
             r3.violation(key, m.where(imf, imf), "no loop assigns %s for every element of %s" % (mp_, coll), "for x in %s: %s[x] = ..." % (coll, mp_), "absent")
-    pl = [s for s in imf.body if isinstance(s, ast.For) and pf.norm_expr(s.iter) == "pwl_ineqs" and "mmap" in ast.unparse(s)]
-    if pl and any(isinstance(x, ast.For) and pf.norm_expr(x.iter) == "pwl_ineqs[%s]" % pf.norm_expr(pl[0].target) for x in ast.walk(pl[0])):
-        r3.ok("_inmatrixform:PWL multiplier sums over all pieces", m.where(pl[0], imf))
+    pl = [(s, loop_over(s, "pwl_ineqs")) for s in imf.body if isinstance(s, ast.For) and loop_over(s, "pwl_ineqs") and "mmap" in ast.unparse(s)]
+    inner_ok = False
+    if pl:
+        s0, (kv, vv) = pl[0]
+        inner_ok = any(isinstance(x, ast.For) and x is not s0 and (pf.norm_expr(x.iter) == "pwl_ineqs[%s]" % kv or (vv is not None and pf.norm_expr(x.iter) == vv))
+                       for x in ast.walk(s0))
+    if inner_ok:
+        r3.ok("_inmatrixform:PWL multiplier sums over all pieces", m.where(pl[0][0], imf))
     else:
         r3.violation("_inmatrixform:PWL multiplier sums over all pieces", m.where(imf, imf), "the multiplier of a PWL inequality does not sum over pwl_ineqs[i]", "inner loop over pwl_ineqs[i]", "absent")
 
     r4 = chk.rule("C12-R4", "solve copies status/x/z/y and back-substitutes through vmap/mmap", "op.solve sets status, values and multipliers as documented")
-    assigns = {pf.norm_expr(s.targets[0]): pf.norm_expr(s.value) for s in ast.walk(solve) if isinstance(s, ast.Assign)}
+    assigns = rc.alias_resolved_assigns(solve)
     for tgt, val in (("self.status", "sol['status']"), ("x.value", "sol['x']"), ("inequalities[0].multiplier.value", "sol['z']"),
                      ("equalities[0].multiplier.value", "sol['y']")):
-        if assigns.get(tgt) == val:
+        if assigns.get(assigns["__resolve__"](tgt)) == val:
             r4.ok("solve:%s = %s" % (tgt, val), m.where(solve, solve))
         else:
             r4.violation("solve:%s = %s" % (tgt, val), m.where(solve, solve), "op.solve does not copy %s" % val, val, assigns.get(tgt))
